@@ -150,8 +150,21 @@ def run_case(case):
         qd = q.divisions
         if qd[0] is not None and want_div[0] is not None and tuple(qd) != tuple(want_div) and not unordered:
             return f"divisions differ: {qd} vs {want_div}"
-        if how != "legacy" and (qd[0] is None) != (want_div[0] is None):
-            return f"the cut query reports divisions {qd}, the uncut query {want_div}: one is known, the other is not"
+        if qd[0] is not None and hasattr(q, "expr") and q.ndim > 0:
+            # a cut may know more than the logical query (persist records the optimised plan's divisions),
+            # but whatever it reports has to be truthful
+            parts = e2e.compute_partitions(q)
+            if len(parts) != len(qd) - 1:
+                return f"the cut query reports {len(qd) - 1} partitions, {len(parts)} were computed"
+            if list(qd) != sorted(qd):
+                return f"the cut query reports unsorted divisions {qd}"
+            for i, part in enumerate(parts):
+                if len(part) == 0:
+                    continue
+                ix = part if isinstance(part, pd.Index) else part.index
+                lo, hi = ix.min(), ix.max()
+                if lo < qd[i] or hi > qd[i + 1] or (hi == qd[i + 1] and i < len(parts) - 1):
+                    return f"the cut query reports divisions {qd} but its partition {i} holds index values [{lo}, {hi}]"
         if len(qd) != len(want_div) and how != "legacy":
             return f"npartitions differ: {len(qd) - 1} vs {len(want_div) - 1}"
     # the graph of the re-imported query is well-formed (proven checker)
